@@ -528,7 +528,11 @@ fn sweep_spellings(rep: &mut Report, len: usize) {
                             );
                         }
                         // the same without whitespace around a symbolic operator
-                        if !alt.chars().all(|c| c.is_ascii_alphabetic()) {
+                        // (only next to operands and parentheses: glued to another symbolic operator the
+                        // characters would form a different token, e.g. `*` `*` -> `**`, `-` `>` -> `->`)
+                        let operandish = |t: &str| matches!(t, "2" | "x" | "(" | ")");
+                        let neighbours_ok = (p == 0 || operandish(toks[p - 1])) && (p + 1 >= l || operandish(toks[p + 1]));
+                        if neighbours_ok && !alt.chars().all(|c| c.is_ascii_alphabetic()) {
                             for variant in [*alt, toks[p]] {
                                 let mut glued = String::new();
                                 for (q, t) in toks.iter().enumerate() {
